@@ -1,13 +1,6 @@
 //! t2n-verif: property-based verification harness for text2num-rs (see /verif/DESIGN.md)
-mod choose;
-mod engine;
-mod gen;
-mod model;
-mod props;
-mod spell;
-mod util;
-
-use engine::{Opts, Tier};
+use t2n_verif::engine::{Opts, Tier};
+use t2n_verif::props;
 
 fn usage() -> ! {
     eprintln!("usage: t2n-verif --property <ID> [--tier quick|thorough] [--replay FILE] [--threads N]");
@@ -31,6 +24,13 @@ fn main() {
         if let Some(path) = args.get(2) {
             let _ = std::fs::write(path, format!("done {}", n));
         }
+        std::process::exit(0);
+    }
+    if args.get(1).map(|s| s.as_str()) == Some("--c03-long-worker") {
+        std::panic::set_hook(Box::new(|_| {}));
+        let n: usize = args.get(3).and_then(|s| s.parse().ok()).unwrap_or(100_000);
+        let only: Option<usize> = args.get(4).and_then(|s| s.parse().ok());
+        props::c03::long_worker(args.get(2).map(|s| s.as_str()).unwrap_or("/dev/null"), n, only);
         std::process::exit(0);
     }
     let mut i = 1;
